@@ -180,16 +180,17 @@ def search(prop, disagreements, notes):
         notes.append('directed search error: %r' % (e,))
     if engine.PROPS[prop]['traits'] != []:
         items += pool(prop, 150, cfg)
+    fails = []
     if not items:
         notes.append('failing-input search: no disagreeing item is executable by correspondence B')
-        return None
-    rep = bharness.run_b(cfg, items, hostile=(prop == 'C14'))
-    for idx in list(rep['compile_errors']):
-        if idx in loose:
-            del rep['compile_errors'][idx]
-    fails = filter_failures(prop, rep)
-    notes.append('failing-input search: %d items, %d queries in %s, %d relevant failures' %
-                 (rep['items'], rep['queries'], cfg, len(fails)))
+    else:
+        rep = bharness.run_b(cfg, items, hostile=(prop == 'C14'))
+        for idx in list(rep['compile_errors']):
+            if idx in loose:
+                del rep['compile_errors'][idx]
+        fails = filter_failures(prop, rep)
+        notes.append('failing-input search: %d items, %d queries in %s, %d relevant failures' %
+                     (rep['items'], rep['queries'], cfg, len(fails)))
     if not fails and engine.PROPS[prop].get('diagnostics'):
         try:
             import eharness
